@@ -115,6 +115,11 @@ def replay_history(job):
                 acc['zz'] = 'U'               # an accessor for an id nobody registers
                 ns = {'SYNTAX_DEFAULTS': arg}
                 ns.update({a: ConfColor(i) for a, i in acc.items()})
+                if n % 2:
+                    # the defaults live in a parent palette class that is only named in PARENT_PALETTES of the class in use
+                    base = type('BasePal', (Palette,), {'SYNTAX_DEFAULTS': arg})
+                    ns = {'PARENT_PALETTES': [base]}
+                    ns.update({a: ConfColor(i) for a, i in acc.items()})
                 cls = type('Pal', (Palette,), ns)        # distinct classes that share one qualified name (as classes made by a factory do)
                 pals.append((cls, acc, {i: d for i, d in st['batch'].items()}))
                 cls(colors_conf=conf)
@@ -158,7 +163,7 @@ def replay_history(job):
             for a, i in acc.items():
                 if _shown(getattr(pn, a)) != sgr.DEFAULT:
                     return 'no_color palette of a second configuration has effects', []
-            own = getattr(cls, 'SYNTAX_DEFAULTS')
+            own = getattr(cls, 'SYNTAX_DEFAULTS') or cls.PARENT_PALETTES[0].SYNTAX_DEFAULTS
             flat_own = _flat(own)
             for a, i in acc.items():
                 d = flat_own.get(i)
@@ -233,6 +238,10 @@ def _replay_global(job, mine):
                 acc['zz'] = 'U'
                 ns = {'SYNTAX_DEFAULTS': arg}
                 ns.update({a: ConfColor(i) for a, i in acc.items()})
+                if n % 2:
+                    base = type('BasePal', (Palette,), {'SYNTAX_DEFAULTS': arg})
+                    ns = {'PARENT_PALETTES': [base]}
+                    ns.update({a: ConfColor(i) for a, i in acc.items()})
                 cls = type('Pal', (Palette,), ns)
                 mine.append(cls)
                 obj = cls(synced=True)
